@@ -114,6 +114,7 @@ def emit_format(f, gen):
     L.append("  opaqueFns := [" + ", ".join(ops) + "]")
     L.append("  algoFacts := [" + ", ".join(algfacts) + "]")
     L.append("  algoWrites := [" + ", ".join(algwrites) + "]")
+    L.append("  typedSites := [" + ", ".join("(%s, %s, %s)" % (lstr(a), lstr(b), lstr(c)) for a, b, c in f.get("typed_sites", [])) + "]")
     L.append("  statics := [" + ", ".join("(%s, %s, %s)" % (lstr(s["name"]), lstr(s["type"]), lbool(s["const"]))
                                          for s in f["statics"]) + "]")
     hdr = f.get("header") or ""
@@ -148,6 +149,10 @@ def emit_lean(gen, outdir):
     out.append("/-- objects with static storage duration in Utils.c: (name, type, const-qualified) -/")
     out.append("def utilsStatics : List (String × String × Bool) := [" + ", ".join(
         "(%s, %s, %s)" % (lstr(x["name"]), lstr(x["type"]), lbool(x["const"])) for x in gen.get("utils", {}).get("statics", [])) + "]")
+    out.append("")
+    out.append("/-- accesses in Utils.c through a wide lvalue cast from a byte-aligned pointer: (function, wide type, source type) -/")
+    out.append("def utilsTypedSites : List (String × String × String) := [" + ", ".join(
+        "(%s, %s, %s)" % (lstr(a), lstr(b), lstr(c)) for a, b, c in gen.get("utils", {}).get("typed_sites", [])) + "]")
     out.append("")
     out.append("def byFile (file : String) : Option GenFormat := formats.find? (fun g => g.file == file)")
     out.append("")
